@@ -774,8 +774,10 @@ def _adjusted_mutual_info_score(reference_indices, estimated_indices):
     # sklearn.metrics.cluster.expected_mutual_information
     R, C = contingency.shape
     N = float(n_samples)
-    a = np.sum(contingency, axis=1).astype(np.int32)
-    b = np.sum(contingency, axis=0).astype(np.int32)
+    # int64: the outer product of the marginals below exceeds the int32 range
+    # once both exceed ~46k frames
+    a = np.sum(contingency, axis=1).astype(np.int64)
+    b = np.sum(contingency, axis=0).astype(np.int64)
     # There are three major terms to the EMI equation, which are multiplied to
     # and then summed over varying nij values.
     # While nijs[0] will never be used, having it simplifies the indexing.
